@@ -96,6 +96,14 @@ def cases(tier, seed, info):
                 cli.append(dict(o=_opt(sw, ss, 'none'), mode=mode))
     for lk in ('plid', 'src', 'srcExclude'):
         cli.append(dict(o=_opt((False,) * 6, [], lk), mode=lk))
+    # the look-ups that display ONE PEL: every class of PEL must be found without selection options
+    # (PEL number 1 carries BMC event log id 0)
+    npel = len(CLI_SEVS) * len(CLI_FLAGS)
+    targets = sorted(set([1, 2, 3] + list(range(1, len(CLI_FLAGS) + 1)) +
+                         rng.sample(range(1, npel + 1), 10 if tier == 'quick' else npel)))
+    for t in targets:
+        for lk in ('bmcID', 'pelID'):
+            cli.append(dict(o=_opt((False,) * 6, [], lk), mode=lk, target=t))
     for k in range(0, len(cli), 12):
         out.append(dict(kind='cli', runs=cli[k:k + 12], seed=seed))
     info['cli_invocations'] = len(cli)
@@ -168,7 +176,7 @@ def _cli_dir():
     if not os.listdir(d):
         for p in pels:
             eid = 0x50000000 + p['eid']
-            pel = encode.mk_pel(ph=encode.mk_ph(eid=eid, plid=0x50000001, bmc=p['eid']),
+            pel = encode.mk_pel(ph=encode.mk_ph(eid=eid, plid=0x50000001, bmc=p['eid'] - 1),
                                 uh=encode.mk_uh(sev=p['sev'], flags=p['flags']),
                                 secs=[encode.mk_src('BD8D%04X' % p['eid'])])
             seams.write_file(os.path.join(d, '%08X_pel' % eid), encode.encode(pel))
@@ -177,8 +185,12 @@ def _cli_dir():
     return d, pels
 
 
-def _argv(o, mode, d):
+def _argv(o, mode, d, target=None):
     a = ['-p', d]
+    if mode == 'bmcID':
+        return a + ['--bmc-id', str(target - 1)]
+    if mode == 'pelID':
+        return a + ['-i', '0x%08X' % (0x50000000 + target)]
     for key, flag in (('every', '-E'), ('sv', '-s'), ('nsv', '-N'), ('hid', '-H'), ('term', '-t'),
                       ('only', '-O')):
         if o[key]:
@@ -207,9 +219,11 @@ def _cli(case):
             import shutil
             shutil.rmtree(outd, ignore_errors=True)
             os.makedirs(outd)
-        res = seams.run_cli(_argv(o, mode, d))
-        rec = dict(kind='cli', o=o, mode=mode, pels=pels, selected=[], count=-1, exit=res['exit'],
-                   shape_ok=True, argv=_argv(o, mode, '<dir>'))
+        tgt = run.get('target')
+        res = seams.run_cli(_argv(o, mode, d, tgt))
+        rec = dict(kind='cli', o=o, mode=mode, pels=pels if tgt is None else [p for p in pels if p['eid'] == tgt],
+                   selected=[], count=-1, exit=res['exit'],
+                   shape_ok=True, argv=_argv(o, mode, '<dir>', tgt))
         try:
             if res['uncaught']:
                 raise ValueError('uncaught: ' + res['uncaught'][-300:])
@@ -219,10 +233,15 @@ def _cli(case):
                 rec['selected'] = [_eid_num(n.split('.')[-2]) for n in names]
                 rec['count'] = len(names)
                 doc = None
+            elif mode in ('bmcID', 'pelID') and res['out'].strip() in ('', 'PEL not found'):
+                doc, rec['count'] = None, 0
             else:
                 doc = json.loads(res['out'])
-            if mode == 'json':
+            if mode == 'json' or doc is None:
                 pass
+            elif mode in ('bmcID', 'pelID'):
+                rec['selected'] = [_eid_num(doc['Private Header']['Entry Id'])]
+                rec['count'] = 1
             elif mode == 'count':
                 rec['count'] = int(doc['Number of PELs found'])
             elif mode == 'all':
